@@ -179,6 +179,11 @@ structure St where
   kind : String := ""
   bytes : Bytes := []
   sname : String := ""
+  /-- schema of the structure of an `s` case: a real wire structure (`TlvSchema.named`) or, for the
+  harness' derive-shape structures (`@Name <declaration>`), the declaration numbered by `implicitTags` -/
+  sty : Option TlvSchema.Ty := none
+  /-- the schema is well-formed (distinct tags): only then the round-trip theorem / oracle applies -/
+  swf : Bool := true
   /-- (hex written, canonical tree) of the `write`/`iterwrite` ops of this case -/
   written : List (String × String) := []
   /-- (hex, slots) of the `enc` ops of this case -/
@@ -288,7 +293,13 @@ def step (st : St) (line : String) : St × String :=
       match unhex (rest.getD 0 "-") with
       | some b => ({ kind := "a", bytes := b }, "case")
       | none => ({ kind := "a" }, "BAD hex")
-    else if k = "s" then ({ kind := "s", sname := rest.getD 0 "" }, "case")
+    else if k = "s" then
+      let nm := rest.getD 0 ""
+      if nm.startsWith "@" then
+        match TlvSchema.parseDecl (rest.drop 1) with
+        | some ty => ({ kind := "s", sname := nm, sty := some ty, swf := ty.wfb }, "case")
+        | none => ({ kind := "s", sname := nm }, "BAD declaration")
+      else ({ kind := "s", sname := nm, sty := TlvSchema.named nm }, "case")
     else ({ kind := k }, "case")
   | [] => (st, "BAD empty")
   | name :: args =>
@@ -337,25 +348,48 @@ def step (st : St) (line : String) : St × String :=
         let st' := match okPayload out with
           | some h => { st with encoded := (h, slots) :: st.encoded }
           | none => st
-        match TlvSchema.encodeNamed st.sname args with
+        match st.sty.bind (fun ty => TlvSchema.encodeText ty args) with
         | some b => if "ok:" ++ hex b = out then (st', "ok") else
             (if (okPayload out).isNone then (st', s!"ORA enc: derived encoder rejected an in-range value ({out})") else (st', s!"DIS ok:{hex b}"))
         | none => (st', "BAD slots")
       else if name = "dec" then
         let h := args.getD 0 "-"
+        let model : Bytes → St × String := fun b =>
+          match st.sty with
+          | some ty =>
+            match TlvSchema.decodeText ty b with
+            | some text => if out = "ok:" ++ text then (st, "ok") else (st, s!"DIS ok:{text.take 300}")
+            | none => if out.startsWith "e:" then (st, "ok") else (st, "DIS e:*")
+          | none => (st, "ok")
         match st.encoded.find? (fun (x, _) => x = h) with
         | some (_, slots) =>
-          if out ≠ "ok:" ++ slots then (st, s!"ORA dec: a derived structure does not decode back to an equal value (got {out.take 120})")
-          else (st, "ok")
+          if st.swf ∧ out ≠ "ok:" ++ slots then (st, s!"ORA dec: a derived structure does not decode back to an equal value (got {out.take 120})")
+          else
+            match unhex h with
+            | some b => model b
+            | none => (st, "BAD hex")
         | none =>
           -- mutated encodings: the derived decoder may accept or reject, the model says which
           match unhex h with
-          | some b =>
-            match TlvSchema.decodeNamed st.sname b with
-            | some (some text) => if out = "ok:" ++ text then (st, "ok") else (st, s!"DIS ok:{text.take 300}")
-            | some none => if out.startsWith "e:" then (st, "ok") else (st, "DIS e:*")
-            | none => (st, "ok")
+          | some b => model b
           | none => (st, "BAD hex")
+      else if name = "pdec" then
+        -- `pdec <hex of an enc op> <hex>`: the same top-level fields in another order and / or with
+        -- unknown fields added: the tolerant derived decoder must return the same value
+        let h0 := args.getD 0 "-"
+        let h := args.getD 1 "-"
+        match st.encoded.find? (fun (x, _) => x = h0), unhex h with
+        | some (_, slots), some b =>
+          if st.swf ∧ out ≠ "ok:" ++ slots then
+            (st, s!"ORA pdec: permuted fields / unknown extra fields change what a derived structure decodes to (got {out.take 120})")
+          else
+            match st.sty with
+            | some ty =>
+              match TlvSchema.decodeText ty b with
+              | some text => if out = "ok:" ++ text then (st, "ok") else (st, s!"DIS ok:{text.take 300}")
+              | none => if out.startsWith "e:" then (st, "ok") else (st, "DIS e:*")
+            | none => (st, "ok")
+        | _, _ => (st, "BAD pdec")
       else if name = "reenc" then
         -- real `from_tlv` followed by real `to_tlv` (structures whose fields cannot be observed directly)
         let h := args.getD 0 "-"
@@ -365,7 +399,7 @@ def step (st : St) (line : String) : St × String :=
           if (st.encoded.find? (fun (x, _) => x = h)).isSome ∧ out ≠ "ok:" ++ h then
             (st, s!"ORA reenc: decoding and re-encoding a derived structure does not reproduce the encoder's bytes (got {out.take 120})")
           else
-            match TlvSchema.named st.sname with
+            match st.sty with
             | none => (st, "ok")
             | some ty =>
               match TlvSchema.decodeStruct ty b with
